@@ -84,7 +84,11 @@ Run(ch, i, st, sc, cfg) ==
              IF Failed(x.res)
              THEN [res |-> x.res,
                    st  |-> [x.st EXCEPT !.delay = IF @ < 0 THEN cfg.dInit
-                                                  ELSE Min((@ * cfg.dNum) \div cfg.dDen, cfg.dMax)]]
+                                                  ELSE Min((@ * cfg.dNum) \div cfg.dDen, cfg.dMax),
+                                        \* the code multiplies nanoseconds in floating point, the model whole microseconds
+                                        \* (TLC's integers have 32 bits): derr bounds what the truncations add up to
+                                        !.derr  = IF x.st.delay < 0 THEN 0
+                                                  ELSE ((@ * cfg.dNum) \div cfg.dDen) + 2]]
              ELSE x
         [] m = "Duplicator" ->        \* (beyond C19: runs the handler twice, concatenates the outputs, first error wins)
              LET x == Run(ch, i + 1, st, sc, cfg) IN
@@ -112,7 +116,7 @@ RetryLoop(ch, i, st, sc, cfg, left, last) ==
          ELSE RetryLoop(ch, i, y.st, sc, cfg, left - 1, y.res)
 
 Fresh(k, settle, corr, delay) ==
-    [k |-> k, ctx |-> "live", dl |-> FALSE, settle |-> settle, corr |-> corr, delay |-> delay, obs |-> << >>]
+    [k |-> k, ctx |-> "live", dl |-> FALSE, settle |-> settle, corr |-> corr, delay |-> delay, derr |-> 1, obs |-> << >>]
 
 Calls(x) == Len(x.st.obs)      \* number of handler invocations of an evaluated call
 =============================================================================
